@@ -9,6 +9,8 @@ termination are runtime truth: they are hunted by the correspondence run (token 
 nesting ramps under a catch_unwind harness with overflow checks on), not proved.
 -/
 import FendModel.Gen.PanicSites
+import FendModel.Proofs.ComplexTree
+import FendModel.Proofs.BigUintShiftN
 
 namespace Fend.C06
 
@@ -91,5 +93,39 @@ theorem year_step_in_range (y : Int) (h0 : y ≠ 0) (lo : -2147483648 < y) (hi :
 /-- superscript exponents: digits are folded most significant first, no fixed-width power of ten is formed -/
 def foldDigits (ds : List Nat) : Nat := ds.foldl (fun a d => a * 10 + d) 0
 example : foldDigits [9, 9, 9, 9, 9, 9, 9, 9, 9, 9, 9, 9, 9, 9, 9, 9, 9, 9, 9, 9, 9, 9] = 9999999999999999999999 := by decide
+
+/-! ### panic-freedom of the modelled arithmetic core
+
+In the models of `biguint.rs` / `bigrat.rs` / `complex.rs` every Rust panic site (overflow, index out of range,
+`unreachable!`, `assert!`, `unwrap` on an error) is the result `.error .panic`.  The refinement theorems of C01 / C10 give, as
+corollaries, that this result is never produced on the inputs the evaluator can build. -/
+
+/-- evaluating ANY expression tree over + - * / unary minus on well-formed rational literals never reaches a panic site
+(`BigUint::sub` underflow, `lshift` on an empty vector, `Ord::cmp`'s unwrap, ... are all unreachable from here) -/
+theorem field_eval_never_panics (e : BigRat.QExpr) (hl : BigRat.LeavesOK e) : BigRat.evalQ e ≠ .error .panic := by
+  obtain ⟨h1, h2⟩ := BigRat.evalQ_spec e hl
+  cases hd : BigRat.denote e with
+  | none => rw [h2 hd]; intro h; cases h
+  | some q => obtain ⟨r, hr, _⟩ := h1 q hd; rw [hr]; intro h; cases h
+
+/-- the same for trees over complex rationals (with conjugate) -/
+theorem complex_eval_never_panics (e : Cx.CExpr) (hl : Cx.LeavesOKC e) : Cx.evalC e ≠ .error .panic := by
+  obtain ⟨h1, h2⟩ := Cx.evalC_spec e hl
+  cases hd : Cx.denoteC e with
+  | none => rw [h2 hd]; intro h; cases h
+  | some z => obtain ⟨r, hr, _⟩ := h1 z hd; rw [hr]; intro h; cases h
+
+/-- long division, gcd and both shifts return a value (or `divideByZero`) on every well-formed limb vector: their internal
+`sub` never underflows, `lshift` never sees an empty vector, the gcd loop never runs out of fuel -/
+theorem bignum_core_never_panics (a b : BigUint) (ha : a.WF) (hb : b.WF) (hne : a.limbs ≠ []) :
+    BigUint.divmod a b ≠ .error .panic ∧ BigUint.gcd a b ≠ .error .panic ∧
+    (b.fitsU64 = true → BigUint.lshiftN a b ≠ .error .panic ∧ BigUint.rshiftN a b ≠ .error .panic) := by
+  refine ⟨?_, ?_, fun hf => ⟨?_, ?_⟩⟩
+  · by_cases h0 : BigUint.val b = 0
+    · rw [BigUint.divmod_zero a b hb h0]; intro h; cases h
+    · obtain ⟨q, r, h, _⟩ := BigUint.divmod_val a b ha hb h0; rw [h]; intro h; cases h
+  · obtain ⟨g, h, _⟩ := BigUint.gcd_val a b ha hb; rw [h]; intro h; cases h
+  · obtain ⟨r, h, _⟩ := BigUint.lshiftN_val a b ha hne hf; rw [h]; intro h; cases h
+  · obtain ⟨r, h, _⟩ := BigUint.rshiftN_val a b ha hf; rw [h]; intro h; cases h
 
 end Fend.C06
